@@ -4,6 +4,7 @@
 (* expanded-and-reparsed (pe) documents.  Hook events (build tag verif):       *)
 (* k = "begin" (limit), "add", "del", "store", "hit", "end".                   *)
 EXTENDS Resolver, ObsLib
+CONSTANT KnownDeviations
 VARIABLES l, st
 Init == l = 0 /\ st = EmptyState
 
@@ -12,7 +13,8 @@ CaseVerdict(o) ==
   IF o.outcome \notin Allowed(c) THEN "viol-outcome-" \o o.outcome
   ELSE IF o.outcome # "ok" THEN "ok"
   ELSE IF NeedsEqual(c) /\ o.outInl # "ok" THEN "harness-inlined-document-rejected"
-  ELSE IF NeedsEqual(c) /\ o.pr # o.pi THEN "viol-ref-not-transparent"
+  ELSE IF NeedsEqual(c) /\ o.pr # o.pi THEN
+       (IF "Dev_RefSiblingWrittenIntoTarget" \in KnownDeviations /\ SiblingWitness(c) THEN "known=Dev_RefSiblingWrittenIntoTarget" ELSE "viol-ref-not-transparent")
   ELSE IF NeedsEqual(c) /\ o.pe # o.pr THEN "viol-expand-roundtrip"
   \* the generator must treat both documents alike (accept both or refuse both)
   ELSE IF NeedsEqual(c) /\ o.gr # o.gi THEN "viol-generator-treats-reference-and-copy-differently"
